@@ -4,6 +4,7 @@ import (
 	"fmt"
 	"go/token"
 	"go/types"
+	"math/bits"
 	"sort"
 	"strings"
 
@@ -276,12 +277,9 @@ func checkC03(c *Ctx) (string, []string) {
 				c.OK("C03.blob-guards", key, s.in.Pos(), "%s", why)
 				continue
 			}
-			// Not demanded here: the GP validity test "entries × entry length < 2^32" of DeBlobProgramCode. It is
-			// not a necessary condition of crash freedom: ReadBytes bounds the table data by the remaining blob
-			// whatever the product is, JumpTable.Size is the low 32 bits of the entry count, and djump's offset
-			// index·Length (index < Size, Length ≤ 255, 32-bit arithmetic) is at most the low 32 bits of the true
-			// offset, which lies inside Data — with the test in place exactly, without it a fortiori for
-			// |Data| ≥ 2^32. A rule demanding the test would alarm on code where C03 holds.
+			// (the consistency of the jump table's declared shape with the data read — the size product must not
+			// wrap — is the "product" obligation below; the threshold 2^32 itself is a GP validity rule and is
+			// not demanded by C03)
 			if f.Name() == "MakeBitMasks" {
 				// the two reads inside the walk over the instruction octets: i/8 into the mask and the previous instruction start;
 				// their range follows from the length test below (non-linear: ⌈n/8⌉) and from prev ≤ i
@@ -291,6 +289,97 @@ func checkC03(c *Ctx) (string, []string) {
 		}
 	}
 	c.extra["blob_loader_sites"] = nsites
+	// sizes computed from blob-declared quantities must not wrap: a product of two such quantities goes through an
+	// overflow-reporting multiplication whose "no overflow" edge dominates every use, or both factors are bounded
+	// by dominating guards so that the product fits (witness: |j| = 0x5555555555555556, z = 3 wrapped to 2 octets
+	// of table data for a table declared 0x55555556 × 3 — repaired in 86b052a)
+	nprod := 0
+	for _, f := range loaders {
+		if isMulOverflowHelper(f) {
+			continue
+		}
+		allInstrs(f, func(in ssa.Instruction) {
+			switch x := in.(type) {
+			case *ssa.BinOp:
+				if x.Op != token.MUL || !isIntegerT(x.Type()) {
+					return
+				}
+				if _, isC := x.X.(*ssa.Const); isC {
+					return
+				}
+				if _, isC := x.Y.(*ssa.Const); isC {
+					return
+				}
+				nprod++
+				key := funcKey(f) + " · product " + abbr(exprStr(x, shapeOpts))
+				bx, okx := constUpperBound(f, in, x.X)
+				by, oky := constUpperBound(f, in, x.Y)
+				w, _, _ := bfWidth(x.Type())
+				fits := okx && oky && bx > 0 && by > 0 && bits.Len64(bx)+bits.Len64(by) <= int(w)
+				c.Check(fits || (okx && bx == 0) || (oky && by == 0), "C03.blob-guards", key, x.Pos(), "both factors are bounded by dominating guards so that the product cannot wrap", "a size is computed as a plain product of two blob-declared quantities: it can wrap, so that the declared shape and the data actually read disagree (later index or slice out of range)")
+			case *ssa.Call:
+				g := x.Call.StaticCallee()
+				if g == nil || !isMulOverflowHelper(g) && g.String() != "math/bits.Mul64" {
+					return
+				}
+				nprod++
+				key := funcKey(f) + " · product " + abbr(exprStr(x, shapeOpts))
+				// the low word is used only behind the "did not overflow" edge
+				loIdx, flagIdx := 0, 1
+				if g.String() == "math/bits.Mul64" {
+					loIdx, flagIdx = 1, 0
+				}
+				var flag ssa.Value
+				var uses []ssa.Instruction
+				for _, r := range *x.Referrers() {
+					ex, isEx := r.(*ssa.Extract)
+					if !isEx {
+						continue
+					}
+					if ex.Index == flagIdx {
+						flag = ex
+					}
+					if ex.Index == loIdx {
+						for _, u := range *ex.Referrers() {
+							switch u.(type) {
+							case *ssa.DebugRef:
+							case *ssa.BinOp, *ssa.If:
+								// comparisons of the size itself (the 2^32 limit) are not uses of it as a size
+							default:
+								if ui, ok := u.(ssa.Instruction); ok {
+									uses = append(uses, ui)
+								}
+							}
+						}
+					}
+				}
+				ok := flag != nil
+				if ok {
+					pass := condEdges(f, func(v ssa.Value) (bool, bool) {
+						if v == flag {
+							return true, false // the flag reports overflow: pass on false
+						}
+						if bo, isB := v.(*ssa.BinOp); isB && (bo.Op == token.NEQ || bo.Op == token.EQL) {
+							if k, isC := constInt(bo.Y); isC && k == 0 && bo.X == flag {
+								return true, bo.Op == token.EQL // hi == 0
+							}
+						}
+						return false, false
+					})
+					for _, u := range uses {
+						if _, isLog := u.(*ssa.MakeInterface); isLog {
+							continue
+						}
+						if !guardedByF(f, u, pass) {
+							ok = false
+						}
+					}
+				}
+				c.Check(ok, "C03.blob-guards", key, x.Pos(), "overflow-reporting product; its value is used only where no overflow was reported", "the overflow report of this product is ignored on a path that uses the (wrapped) value as a size")
+			}
+		})
+	}
+	c.extra["blob_loader_products"] = nprod
 	if f := c.Fn("PVM", "MakeBitMasks"); f != nil {
 		// the walk over the instruction octets is entered exactly when len(mask) == ⌈len(instructions)/8⌉
 		var site ssa.Instruction
@@ -513,4 +602,105 @@ func blobSiteByPostcondition(f *ssa.Function, in ssa.Instruction) string {
 func isErrorNilable(v ssa.Value) bool {
 	_, isIface := v.Type().Underlying().(*types.Interface)
 	return isIface
+}
+
+// isMulOverflowHelper: g(a, b) returns (a*b low word, overflow flag) computed by bits.Mul64.
+func isMulOverflowHelper(g *ssa.Function) bool {
+	if g == nil || len(g.Blocks) != 1 || len(g.Params) != 2 || g.Signature.Results().Len() != 2 {
+		return false
+	}
+	var mul *ssa.Call
+	for _, in := range g.Blocks[0].Instrs {
+		if call, ok := in.(*ssa.Call); ok && call.Call.StaticCallee() != nil && call.Call.StaticCallee().String() == "math/bits.Mul64" {
+			if call.Call.Args[0] == ssa.Value(g.Params[0]) && call.Call.Args[1] == ssa.Value(g.Params[1]) || call.Call.Args[0] == ssa.Value(g.Params[1]) && call.Call.Args[1] == ssa.Value(g.Params[0]) {
+				mul = call
+			}
+		}
+	}
+	if mul == nil {
+		return false
+	}
+	ret, ok := g.Blocks[0].Instrs[len(g.Blocks[0].Instrs)-1].(*ssa.Return)
+	if !ok || len(ret.Results) != 2 {
+		return false
+	}
+	lo, isLo := ret.Results[0].(*ssa.Extract)
+	if !isLo || lo.Tuple != ssa.Value(mul) || lo.Index != 1 {
+		return false
+	}
+	bo, isB := ret.Results[1].(*ssa.BinOp)
+	if !isB || bo.Op != token.NEQ {
+		return false
+	}
+	hi, isHi := bo.X.(*ssa.Extract)
+	k, isC := constInt(bo.Y)
+	return isHi && hi.Tuple == ssa.Value(mul) && hi.Index == 0 && isC && k == 0
+}
+
+// constUpperBound: a constant K with v ≤ K on every path to `at` (from a dominating comparison of v itself with
+// a constant, or from v's type when it was widened from a narrower unsigned type).
+func constUpperBound(f *ssa.Function, at ssa.Instruction, v ssa.Value) (uint64, bool) {
+	core := stripConv(v)
+	if k, isC := constInt(core); isC && k >= 0 {
+		return uint64(k), true
+	}
+	best, have := uint64(0), false
+	if cv, isConv := v.(*ssa.Convert); isConv {
+		if w, s, ok := bfWidth(cv.X.Type()); ok && !s && w < 64 {
+			best, have = 1<<w-1, true
+		}
+	}
+	for _, b := range f.Blocks {
+		ifi, ok := b.Instrs[len(b.Instrs)-1].(*ssa.If)
+		if !ok {
+			continue
+		}
+		bo, ok := ifi.Cond.(*ssa.BinOp)
+		if !ok {
+			continue
+		}
+		var k int64
+		var isC, vLeft bool
+		if stripConv(bo.X) == core {
+			k, isC = constInt(bo.Y)
+			vLeft = true
+		} else if stripConv(bo.Y) == core {
+			k, isC = constInt(bo.X)
+		}
+		if !isC || k < 0 {
+			continue
+		}
+		// edges on which v ≤ bound
+		type eb struct {
+			succ  int
+			bound uint64
+		}
+		var es []eb
+		op := bo.Op
+		if !vLeft { // K op v  ≡  v op' K
+			op = map[token.Token]token.Token{token.LSS: token.GTR, token.GTR: token.LSS, token.LEQ: token.GEQ, token.GEQ: token.LEQ, token.EQL: token.EQL, token.NEQ: token.NEQ}[op]
+		}
+		switch op {
+		case token.LSS:
+			if k > 0 {
+				es = append(es, eb{0, uint64(k) - 1})
+			}
+		case token.LEQ:
+			es = append(es, eb{0, uint64(k)})
+		case token.GTR:
+			es = append(es, eb{1, uint64(k)})
+		case token.GEQ:
+			if k > 0 {
+				es = append(es, eb{1, uint64(k) - 1})
+			}
+		case token.EQL:
+			es = append(es, eb{0, uint64(k)})
+		}
+		for _, e := range es {
+			if guardedByF(f, at, []edge{{b, e.succ}}) && (!have || e.bound < best) {
+				best, have = e.bound, true
+			}
+		}
+	}
+	return best, have
 }
